@@ -516,7 +516,7 @@ def fetch_symbols(ocp, spec):
 DEFAULT_WEIGHTS = {
     "set_value": 3, "set_initial": 3, "subject_to": 2, "clear_constraints": 0.7, "add_objective": 1, "method": 2, "solver": 1,
     "set_T": 1, "set_t0": 0.6, "query": 2, "solve": 3, "read_ncs": 0.3, "check": 2, "reject": 0.5, "save": 0, "load": 0,
-    "late_sym": 0.4, "callback": 0.3, "mpc": 1.0, "redeclare": 1.0,
+    "late_sym": 0.4, "callback": 0.3, "mpc": 1.0, "redeclare": 1.0, "catsave": 0,
 }
 
 
@@ -682,6 +682,18 @@ class Scheduler:
             return d
         if k == "read_ncs":
             return {"op": "read_ncs", "a": a}
+        if k == "catsave":
+            # placed: values for several parameters at once (documented concatenation form), given after a solve,
+            # must reach the file: update, save, restart
+            scal = [q for q in sp.names("parameter") if sp.sym(q).get("grid", "") == "" and sp.sym(q).get("rows", 1) * sp.sym(q).get("cols", 1) == 1 and sp.T != ["par", q]]
+            if len(scal) < 2 or sp.cb:
+                return None
+            two = r.sample(scal, 2)
+            path = G.pick(r, self.paths)
+            out = [] if st["transcribed"] else [{"op": "solve", "a": a, "how": "solve", "point": "x0"}]
+            out += [{"op": "set_value_cat", "a": a, "ps": two, "v": [G.rnum(r), G.rnum(r)]},
+                    {"op": "save", "a": a, "path": path}, {"op": "load", "a": a, "path": path, "as": a}]
+            return out
         if k == "mpc":
             # MPC-like inner loop: new parameter value, solve, read back, warm start, solve
             ps = sp.names("parameter")
